@@ -129,13 +129,15 @@ class EIG(BaseRoutine):
 
         swaps = []
         bidx = self.nz_counts
-        for ii in range(dae.n - self.nz_counts):
+        for ii in range(self.nz_counts):
             if ii in self.zstate_idx:
                 while (bidx in self.zstate_idx):
                     bidx += 1
+                # swap positions `ii` and `bidx` (symmetric permutation)
                 cols[ii] = bidx
-                rows[bidx] = ii
+                cols[bidx] = ii
                 swaps.append((ii, bidx))
+                bidx += 1
 
         # swap the variable names
         for fr, bk in swaps:
@@ -144,15 +146,17 @@ class EIG(BaseRoutine):
         self.x_name = self.x_name[:self.nz_counts]
 
         # compute the permutation matrix for `As` containing non-states
+        # Note: permute the unscaled matrix `fxy`; `_reduce` applies the time constants afterwards
         perm = spmatrix(matrix(vals), matrix(rows), matrix(cols))
-        As_perm = perm * sparse(self.As) * perm
+        As_perm = perm * sparse(self.fxy) * perm
         self.As_perm = As_perm
 
         nfx = As_perm[:self.nz_counts, :self.nz_counts]
         nfy = As_perm[:self.nz_counts, self.nz_counts:]
         ngx = As_perm[self.nz_counts:, :self.nz_counts]
         ngy = As_perm[self.nz_counts:, self.nz_counts:]
-        nTf = np.delete(self.system.dae.Tf, self.zstate_idx)
+        # time constants in the permuted order of the remaining states
+        nTf = self.system.dae.Tf[cols[:self.nz_counts]]
 
         return nfx, nfy, ngx, ngy, nTf
 
